@@ -164,8 +164,6 @@ def make_station(name, lat_d, lon_d, alt, mask=None, argtype="tuple-float", pare
     G = _world()
     world.restore(G["snap"])
     _G.pop("masksta_key", None)
-    # a second, distinct station (receiving end of three-way / relayed signal paths; another topocentric frame)
-    _G["stb"] = create_station("StaB", (-(lat_d * 0.5) + 7.0, lon_d + 40.0, 250.0))
     arg = coords_arg(argtype, lat_d, lon_d, alt)
     keep = (type(arg), [type(v) for v in arg], [float(v) for v in arg])
     try:
@@ -177,6 +175,10 @@ def make_station(name, lat_d, lon_d, alt, mask=None, argtype="tuple-float", pare
             sta = create_station(name, arg, mask=mask)
     except Exception as e:  # the property requires a station for every coordinate triple
         raise CreateFailed(f"create_station({arg!r}) raised {type(e).__name__}: {e}") from e
+    # a second, distinct station (receiving end of three-way / relayed signal paths; another topocentric frame),
+    # created AFTER the station under test: the first station must not be affected by later registrations
+    _G["stb"] = create_station("StaB", (-(lat_d * 0.5) + 7.0, lon_d + 40.0, 250.0))
+    _G["stc"] = create_station("StaC", (lat_d * 0.3 - 20.0, lon_d - 95.0, 1200.0))
     if (type(arg), [type(v) for v in arg], [float(v) for v in arg]) != keep:
         _G["arg_mutated"] = (keep[2], [float(v) for v in arg])
     else:
@@ -611,8 +613,8 @@ def check_rebind(seq, restore_between, t, tier="quick"):
             if k and restore_between:
                 world.restore(G["snap"])
             try:
-                _G["stb"] = create_station("StaB", (-(site[0] * 0.5) + 7.0, site[1] + 40.0, 250.0))
                 sta = create_station("Sta", site)
+                _G["stb"] = create_station("StaB", (-(site[0] * 0.5) + 7.0, site[1] + 40.0, 250.0))  # after the station under test
             except Exception as e:
                 t.fail("station/create-raises", "a station can be re-created under a name already in use", dict(kind="origin", site=list(site), date=list(dt), **_G["case_extra"]),
                        "a station", repr(e))
